@@ -889,6 +889,69 @@ class H5(Case):
         return concretise_frac(inp, obs)
 
 
+class H6(Case):
+    """pt_tempo_compute() is the documented shortcut for PtTempo(...).compute(); get_process_tensor(): every argument
+    (bath, times, parameters, unique, process_tensor_file, overwrite, backend_config, name, description) must reach
+    PtTempo unchanged -- for BOTH values of the symbolic flags `overwrite` and `unique` and all symbolic times.
+    The recorder binds the call to the REAL PtTempo.__init__ signature, so positional and keyword calls are equivalent."""
+    functions = ("oqupy/pt_tempo.py:pt_tempo_compute",)
+    stubs = ("oqupy.pt_tempo.PtTempo -> recorder bound to the real constructor's signature (compute / get_process_tensor record their calls)",)
+    env = {}
+    real_env = {}
+
+    def __init__(self):
+        self.id = "H6/pt_tempo_compute_forwards_arguments"
+        import oqupy      # concrete bath / parameters (only passed through), built outside the symbolic environment
+        self.bath = oqupy.Bath(0.5 * oqupy.operators.sigma("z"), oqupy.PowerLawSD(alpha=0.1, zeta=1.0, cutoff=1.0, cutoff_type="exponential"))
+        self.params = oqupy.TempoParameters(dt=0.1, dkmax=2, epsrel=1e-4)
+        self.bounds = {"flags": "overwrite, unique symbolic Booleans", "start": [-5, 5], "span": [1, 5]}
+
+    def run(self, inp):
+        import inspect
+        import oqupy
+        import oqupy.pt_tempo as ptt
+        from vf.env import patched
+        from vf import sym
+        real_sig = inspect.signature(ptt.PtTempo.__init__)
+        rec, calls = {}, []
+
+        class Recorder:
+            def __init__(self_, *a, **kw):
+                b = real_sig.bind(self_, *a, **kw)
+                b.apply_defaults()
+                rec.update(b.arguments)
+
+            def compute(self_, progress_type=None):
+                calls.append(("compute", progress_type))
+
+            def get_process_tensor(self_, *a, **kw):
+                calls.append(("get_process_tensor",))
+                return "the process tensor"
+        ow, uq = inp.bool("overwrite"), inp.bool("unique")
+        start = inp.real("start", lo=-5, hi=5)
+        span = inp.real("span", lo=1, hi=5)
+        bath, params = self.bath, self.params
+        cfg = {"some": "config"}
+        with patched({"oqupy.pt_tempo.PtTempo": Recorder}):
+            out = ptt.pt_tempo_compute(bath, start, start + span, parameters=params, unique=uq, process_tensor_file="some file.hdf5",
+                                       overwrite=ow, backend_config=cfg, progress_type="silent", name="a name", description="a description")
+
+        def same_flag(got, want):
+            if got is want:
+                return True
+            return sym.SB(sym.tob(got) == sym.tob(want))
+        obs = [Ob.holds("overwrite reaches PtTempo unchanged", same_flag(rec.get("overwrite"), ow), key="overwrite"),
+               Ob.holds("unique reaches PtTempo unchanged", same_flag(rec.get("unique"), uq), key="unique"),
+               Ob.holds("bath, parameters, file name, backend_config, name, description reach PtTempo unchanged",
+                        rec.get("bath") is bath and rec.get("parameters") is params and rec.get("process_tensor_file") == "some file.hdf5"
+                        and rec.get("backend_config") is cfg and rec.get("name") == "a name" and rec.get("description") == "a description", key="others"),
+               Ob.eq("start_time reaches PtTempo unchanged", rec.get("start_time"), start, key="times"),
+               Ob.eq("end_time reaches PtTempo unchanged", rec.get("end_time"), start + span, key="times"),
+               Ob.holds("compute(progress_type) then get_process_tensor(); its result is returned",
+                        calls == [("compute", "silent"), ("get_process_tensor",)] and out == "the process tensor", key="calls")]
+        return obs
+
+
 def pt_tempo(infl, N, K, d, pt):
     """real PtTempoBackend.initialize / compute_step / update_process_tensor -> the backend"""
     from oqupy.backends.pt_tempo_backend import PtTempoBackend
@@ -918,12 +981,14 @@ def cases(tier):
     cs += [H2(2, None), H2(3, 1), H2(2, None, "real", named_file=False), H2(2, None, via_init="cunit")]
     cs += [H3("su2"), H3("gen", overwrite=True), H3("identity", named=False), H3("sy")]
     cs += [H4("name_then_description"), H4("description_then_name"), H4("description_only", initial=False)]
+    cs += [H6()]
     cs += [H5(1, 1, 4, "full"), H5(2, 2, 3, True), H5(1, 1, 4, "in_full"), H5(3, 2, 3, False), H5(2, 2, 4, "out"), H5(2, 2, 4, True),
            H5(1, 1, 3, "full")]
     if tier == "thorough":
         cs += [H5(N, 2 if N > 1 else 1, rank, tr) for N in (1, 2, 3) for rank in (3, 4)
                for tr in (False, True, "full", "in", "out", "in_full", "out_full")
-               if not (tr == "full" and N > 1)]      # two full symbolic transforms with N >= 2: solver unknown at 300 s (probed), outside the bound
+               if not (tr == "full" and N > 1)       # two full symbolic transforms with N >= 2: solver unknown at 300 s (probed), outside the bound
+               and not (N == 3 and rank == 4 and tr)]  # N = 3, rank 4 with any symbolic transform: not decided within 150 s (probed), outside the bound
         cs = [c for i, c in enumerate(cs) if not any(c.id == x.id for x in cs[:i])]
         for kind in ("file", "simple"):
             for N in (1, 2, 3):
